@@ -198,8 +198,9 @@ Definition render_group (drop : nat) (upper : bool) (g : N) : bytes :=
 Definition group_ok (drop : nat) (g : N) : bool :=
   (g <? 65536) && (drop <=? 3)%nat && forallb (N.eqb 0) (firstn drop (group_digits g)).
 
-(* RFC 4291 §2.2 form 1: eight groups separated by colons (per group: dropped zeros, letter case) *)
-Record ip6choice := mkIp6 { g_drop : list nat; g_upper : list bool }.
+(* RFC 4291 §2.2 forms 1 and 2: eight groups separated by colons (per group: dropped zeros, letter case);
+   one run of zero groups — [g_zip] = its first index and its length — may be written as "::" *)
+Record ip6choice := mkIp6 { g_drop : list nat; g_upper : list bool; g_zip : option (nat * nat) }.
 
 Fixpoint render_groups (drops : list nat) (uppers : list bool) (gs : list N) : bytes :=
   match gs with
@@ -213,8 +214,19 @@ Fixpoint groups_ok (drops : list nat) (gs : list N) : bool :=
   | [] => true
   | g :: gs' => group_ok (hd O drops) g && groups_ok (tl drops) gs'
   end.
-Definition render_ip6 (c : ip6choice) (gs : list N) : bytes := render_groups (g_drop c) (g_upper c) gs.
-Definition ip6_ok (c : ip6choice) (gs : list N) : bool := (length gs =? 8)%nat && groups_ok (g_drop c) gs.
+Definition render_ip6 (c : ip6choice) (gs : list N) : bytes :=
+  match g_zip c with
+  | None => render_groups (g_drop c) (g_upper c) gs
+  | Some (i, n) =>
+    render_groups (g_drop c) (g_upper c) (firstn i gs) ++ [58; 58] ++
+    render_groups (skipn (i + n) (g_drop c)) (skipn (i + n) (g_upper c)) (skipn (i + n) gs)
+  end.
+Definition ip6_ok (c : ip6choice) (gs : list N) : bool :=
+  (length gs =? 8)%nat && groups_ok (g_drop c) gs &&
+  match g_zip c with
+  | None => true
+  | Some (i, n) => (1 <=? n)%nat && (i + n <=? 8)%nat && forallb (N.eqb 0) (firstn n (skipn i gs))
+  end.
 
 (* ---- mnemonics -------------------------------------------------------------------------------------- *)
 
@@ -370,7 +382,7 @@ Inductive fchoice := CName (nc : nchoice) | CInt (ic : ichoice) | CIp6 (c : ip6c
 
 Definition fc_name (fc : fchoice) : nchoice := match fc with CName nc => nc | _ => NAbs [] end.
 Definition fc_int (fc : fchoice) : ichoice := match fc with CInt ic => ic | _ => i_plain end.
-Definition fc_ip6 (fc : fchoice) : ip6choice := match fc with CIp6 c => c | _ => mkIp6 [] [] end.
+Definition fc_ip6 (fc : fchoice) : ip6choice := match fc with CIp6 c => c | _ => mkIp6 [] [] None end.
 Definition fc_str (fc : fchoice) : schoice := match fc with CStr sc => sc | _ => SQuoted [] end.
 Definition fc_proto (fc : fchoice) : pchoice := match fc with CProto pc => pc | _ => PNum i_plain end.
 
